@@ -98,6 +98,7 @@ func globCmd(args []string) error {
 	tmp, _ = filepath.Abs(tmp)
 	defer os.RemoveAll(tmp)
 	log, _ := logger.NewZapLogger(false)
+	os.WriteFile(filepath.Join(tmp, "AAA.lit"), []byte("lit"), 0o644)
 
 	pool := []string{"f:a.js", "f:z.js", "f:.eslintrc.js", "f:src/b.js", "f:src/c.txt", "f:src/.hid.js", "f:.git/config.js",
 		"f:src/deep/d.js", "f:lib/e.js", "d:empty", "f:src/.cache/f.js"}
@@ -149,7 +150,9 @@ func globCmd(args []string) error {
 		}
 		sort.Strings(allPaths)
 		expandOnce := func(pattern string) (string, error) {
-			src := fmt.Sprintf("task t(%q) {\n    run t\n}\n", pattern)
+			// two tasks share the pattern and run in one invocation; the first also names a literal file that sorts before
+			// every match: the expansion recorded for the pattern must not depend on what the run does with it
+			src := fmt.Sprintf("task t(%q, \"../AAA.lit\") {\n    run t\n}\n\ntask u(%q, t) {\n    run u\n}\n", pattern, pattern)
 			tree, err := parser.New(src).Parse()
 			if err != nil {
 				return "", err
@@ -159,7 +162,7 @@ func globCmd(args []string) error {
 				return "", err
 			}
 			// Run expands every glob of the file before it runs anything; the task's command is swallowed by the runner
-			if _, err := sf.Run(iostream.Null(), &recRunner{}, true, "t"); err != nil {
+			if _, err := sf.Run(iostream.Null(), &recRunner{}, true, "u"); err != nil {
 				return "", err
 			}
 			var rel []string
